@@ -1421,26 +1421,27 @@ func (s *Serf) handleQueryResponse(resp *messageQueryResponse) {
 
 	// Process each type of response
 	if resp.Ack() {
-		// Exit early if this is a duplicate ack
-		if _, ok := query.acks[resp.From]; ok {
+		// The duplicate check happens inside sendAck, under the same lock
+		// that guards the delivery, since NotifyMsg may run concurrently.
+		dup, err := query.sendAck(resp)
+		if dup {
 			metrics.IncrCounterWithLabels([]string{"serf", "query_duplicate_acks"}, 1, s.metricLabels)
 			return
 		}
 
 		metrics.IncrCounterWithLabels([]string{"serf", "query_acks"}, 1, s.metricLabels)
-		err := query.sendAck(resp)
 		if err != nil {
 			s.logger.Printf("[WARN] %v", err)
 		}
 	} else {
-		// Exit early if this is a duplicate response
-		if _, ok := query.responses[resp.From]; ok {
+		// The duplicate check happens inside sendResponse, see above.
+		dup, err := query.sendResponse(NodeResponse{From: resp.From, Payload: resp.Payload})
+		if dup {
 			metrics.IncrCounterWithLabels([]string{"serf", "query_duplicate_responses"}, 1, s.metricLabels)
 			return
 		}
 
 		metrics.IncrCounterWithLabels([]string{"serf", "query_responses"}, 1, s.metricLabels)
-		err := query.sendResponse(NodeResponse{From: resp.From, Payload: resp.Payload})
 		if err != nil {
 			s.logger.Printf("[WARN] %v", err)
 		}
